@@ -114,8 +114,54 @@ class Drive(_E2Gen):
             await self.finish_jobs()
         return False
 
+    async def optional_scenario(self):
+        """An OPTIONAL step that was needed and built, and is no longer needed at the end of the phase: the plan
+        defines u (-> fu, OPTIONAL) and c (fu -> fc); both run; the plan is rerun and declares u again but not c.
+        The finalize then has something to revert (a SUCCEEDED step with a BUILT output), and the next rebuild
+        starts from a quiescent state with an idle optional step."""
+        from .e2 import FILES, STEPS
+        rng = self.rng
+        plan = "./plan.py"
+        await self.finish_jobs()
+        await self.snapshot()
+        if self.detached.get(("step", plan), True):
+            return
+        free_files = [f for f in FILES[:8] if self.detached.get(("file", f), True)]
+        free_steps = [s for s in STEPS if self.detached.get(("step", s), True)]
+        if len(free_files) < 2 or len(free_steps) < 2:
+            return
+        fu, fc = rng.sample(free_files, 2)
+        u, c = rng.sample(free_steps, 2)
+        spec_u = ((), (), (fu,), (), "OPTIONAL")
+        spec_c = ((fu,), (), (fc,), (), "DEFAULT")
+        if self.sstate.get(plan) != StepState.PENDING.value:
+            await self.record(("mark_step_pending", plan))
+        if not await self.run_to_running(plan):
+            return
+        ok_u = await self.record(("define_step", ("step", plan), u, *spec_u)) == "ok"
+        ok_c = ok_u and await self.record(("define_step", ("step", plan), c, *spec_c)) == "ok"
+        self.jobs.pop(plan, None)
+        await self.record(("exec_end", plan, (), "SUCCEEDED", (), True, False))
+        if not ok_c:
+            return
+        self.defs[u], self.defs[c] = spec_u, spec_c
+        for lab in (u, c):
+            if not await self.run_to_running(lab):
+                return
+            self.jobs.pop(lab, None)
+            await self.record(("exec_end", lab, (), "SUCCEEDED", self.success_hashes(lab), True, False))
+        await self.record(("mark_step_pending", plan))
+        if not await self.run_to_running(plan):
+            return
+        await self.record(("define_step", ("step", plan), u, *spec_u))
+        self.jobs.pop(plan, None)
+        await self.record(("exec_end", plan, (), "SUCCEEDED", (), True, False))
+        self.opcount["optional_scenario"] = self.opcount.get("optional_scenario", 0) + 1
+
     async def run_c04(self):
         await self.run()
+        if self.rng.random() < 0.5:
+            await self.optional_scenario()
         self.marks["prefix"] = len(self.trace)
         done = await self.drain()
         self.marks["drained"] = len(self.trace)
